@@ -278,7 +278,7 @@ Lemma deref_prim t k : deref t = Prim k -> t = Prim k \/ t = Ptr (Prim k).
 Proof. destruct t; simpl; intro H; try discriminate; [left | right]; congruence. Qed.
 
 Lemma denotes_signed s z : parse_signed s = Some z -> denotes_int s z = true.
-Proof. unfold denotes_int. intros ->. rewrite Z.eqb_refl. reflexivity. Qed.
+Proof. unfold denotes_int, denotes_int0. intros ->. rewrite Z.eqb_refl. reflexivity. Qed.
 
 Lemma convert_set_exact pj k s fi v : convert_set k s fi = Ok v ->
   leaf_agrees k (match fi with Some i => JNum s i | None => JStr s pj end) v = true.
@@ -1246,3 +1246,21 @@ Proof.
   - inversion H. constructor.
   - apply bind_ok in H as [e [He H]]. apply bind_ok in H as [es [Hes H]]. inversion H; subst. constructor; [exact He | apply IH; exact Hes].
 Qed.
+
+(* ------------------------------------------------------------------ form values are exact and present *)
+Lemma form_doc_present k s pj rest ps : s <> EmptyString ->
+  exists m, form_doc ((k, JStr s pj :: rest) :: ps) = JObj m /\ olookup k m = Some (JStr s pj).
+Proof.
+  intro Hs. unfold form_doc. simpl. destruct (String.eqb s "") eqn:E; [apply String.eqb_eq in E; contradiction|].
+  eexists. split; [reflexivity|]. unfold olookup. simpl. rewrite String.eqb_refl. reflexivity.
+Qed.
+
+Lemma from_string_str_exact t o s pj w : deref t = Prim KStr -> from_string t o (JStr s pj) = Ok w -> w = wrap_ptr t (VStr s).
+Proof.
+  intros D. unfold from_string. rewrite D. destruct (negb (in_options o s)); [discriminate|]. simpl.
+  destruct (range_ok_val o (VStr s)); [|discriminate]. intro H; inversion H; reflexivity.
+Qed.
+
+Lemma reader_chunking decode n t c1 c2 : fold_right append EmptyString c1 = fold_right append EmptyString c2 ->
+  unmarshal_reader decode n t c1 = unmarshal_reader decode n t c2.
+Proof. unfold unmarshal_reader. intros ->. reflexivity. Qed.
